@@ -12,12 +12,14 @@ import (
 	"crypto/tls"
 	"fmt"
 	"math/rand"
+	"net/http/httptest"
 	"net/http"
 	"net/url"
 	"sort"
 	"strconv"
 	"strings"
 
+	"github.com/fabiolb/fabio/admin/api"
 	"github.com/fabiolb/fabio/route"
 	"github.com/gobwas/glob"
 
@@ -336,6 +338,7 @@ func main() {
 	run := vh.Start("C03")
 	r := run.Rng
 
+	nLookups := 0
 	addLookup := func(class string, defs []def, rq request, m int, globOff bool) {
 		for _, d := range defs {
 			// with glob matching disabled a host key is a literal name: brackets (IPv6 literals) are modelled there
@@ -356,6 +359,16 @@ func main() {
 		if err != nil {
 			run.Exclude("route.NewTable rejected the generated table")
 			return
+		}
+		// every third table is published and READ before the lookup - the admin API's route listing
+		// (what the UI's routes page calls), Table.String, Table.Dump: a reader leaves the table,
+		// and with it the order in which routes are tried, as it is
+		nLookups++
+		if nLookups%3 == 0 {
+			route.SetTable(t)
+			(&api.RoutesHandler{}).ServeHTTP(httptest.NewRecorder(), httptest.NewRequest("GET", "/api/routes", nil))
+			_ = t.String()
+			_ = t.Dump()
 		}
 		id, panicked, pval := lookupImpl(t, rq, m, globOff)
 		sample := map[string]interface{}{"table": strings.Split(strings.TrimSpace(text), "\n"), "host": rq.Host, "tls": rq.TLS,
